@@ -45,3 +45,89 @@ Theorem C10_distribution : forall t cs ms,
   map (fun ic => BWire (snd ic) (concat (map encode_frames (PushDistribution.share (fst ic) (length cs) ms)))) (combine (seq 0 (length cs)) cs).
 Proof. exact PushDistribution.push_distributes. Qed.
 Print Assumptions C10_distribution.
+
+(** * The same loop over connections that answer each write from their own script (Model/RrSend.v):
+      partial writes, transient back-pressure, write errors, Ok(0), connections that stop accepting.
+      ([World.send_rr] above is the loop over connections that accept every write.) *)
+From ZV Require Import Model.TrySend Model.RrSend Proofs.RrSendProofs.
+
+(** the code sites this model rests on, re-read from src/backend.rs on every run: the identity popped from the rotation is
+    held by a guard that re-queues it when dropped, created before the first await, disarmed when the peer is gone or
+    its write failed *)
+Theorem C10_gen_structure :
+  Gen.Src.rr_guard_requeues_on_drop = 1 /\ Gen.Src.rr_guard_before_await = 1 /\ Gen.Src.rr_guard_disarmed_on_error = 1.
+Proof. repeat split; reflexivity. Qed.
+Print Assumptions C10_gen_structure.
+
+(** the framed writer neither loses nor invents bytes, whatever the connection answers *)
+Theorem C10_writer_stream : forall fuel s r s', flush_all fuel s = (r, s') ->
+  k_written s' ++ k_buf s' = k_written s ++ k_buf s.
+Proof. exact flush_all_stream. Qed.
+Print Assumptions C10_writer_stream.
+
+(** a send touches at most one connection, whatever its outcome *)
+Theorem C10_faulty_touches_one : forall st m r st', RrSend.send st m = (r, st') -> forall j, targets j r = false ->
+  wire_of j st' = wire_of j st /\ pget j (r_peers st') = pget j (r_peers st).
+Proof. exact send_touches_one. Qed.
+Print Assumptions C10_faulty_touches_one.
+
+(** success = the whole message on the wire of a peer the socket holds, nothing left buffered *)
+Theorem C10_faulty_ok_whole : forall st m k st', RrSend.send st m = (ROk k, st') ->
+  exists p, pget k (r_peers st) = Some p /\
+    (k_buf (p_sink p) = [] ->
+       wire_of k st' = wire_of k st ++ encode_frames m /\
+       exists p', pget k (r_peers st') = Some p' /\ k_buf (p_sink p') = []).
+Proof. exact send_ok_whole. Qed.
+Print Assumptions C10_faulty_ok_whole.
+
+(** a write failure forgets the peer (table and rotation); at most a prefix of the message went out, to it alone *)
+Theorem C10_faulty_err_forgets : forall st m k e st', RrSend.send st m = (RErr k e, st') ->
+  NoDup (map p_id (r_peers st)) -> NoDup (r_rr st) ->
+  pget k (r_peers st') = None /\ ~ In k (r_rr st') /\
+  (forall p, pget k (r_peers st) = Some p -> k_buf (p_sink p) = [] ->
+     exists w rest, encode_frames m = w ++ rest /\ wire_of k st' = wire_of k st ++ w).
+Proof. exact send_err_forgets. Qed.
+Print Assumptions C10_faulty_err_forgets.
+
+Theorem C10_faulty_nopeer : forall st m st', RrSend.send st m = (RNoPeer, st') ->
+  r_peers st' = r_peers st /\ r_gone st' = r_gone st /\ r_rr st' = [] /\
+  (forall k, In k (r_rr st) -> pget k (r_peers st) = None).
+Proof. exact send_nopeer. Qed.
+Print Assumptions C10_faulty_nopeer.
+
+(** stale entries only ever leave the rotation, and a message is never given to a peer the socket has let go of *)
+Theorem C10_faulty_rotation_shrinks : forall st m r st', RrSend.send st m = (r, st') ->
+  (forall j, In j (r_rr st') -> In j (r_rr st)) /\
+  (forall k, targets k r = true -> pget k (r_peers st) <> None).
+Proof. exact send_rotation_shrinks. Qed.
+Print Assumptions C10_faulty_rotation_shrinks.
+
+(** a send that is abandoned while its connection does not accept keeps the peer and its turn order: the peer goes to
+    the tail of the rotation like after a completed send *)
+Theorem C10_faulty_stall_keeps_turn : forall st m k st', RrSend.send st m = (RStall k, st') ->
+  pget k (r_peers st') <> None /\
+  exists skipped rest, r_rr st = skipped ++ k :: rest /\ r_rr st' = rest ++ [k] /\
+    (forall j, In j skipped -> pget j (r_peers st) = None).
+Proof. exact send_stall_keeps_turn. Qed.
+Print Assumptions C10_faulty_stall_keeps_turn.
+
+(** a full round over accepting connections reaches every peer once, in queue order, and restores the queue *)
+Theorem C10_faulty_full_round : forall ms st, all_accepting st -> NoDup (r_rr st) ->
+  (forall k, In k (r_rr st) -> pget k (r_peers st) <> None) ->
+  length ms = length (r_rr st) -> Forall (fun m => lenN (encode_frames m) < 2 ^ 63) ms ->
+  fst (rrun st (map RSend ms)) = map ROk (r_rr st) /\ r_rr (snd (rrun st (map RSend ms))) = r_rr st.
+Proof. exact rr_full_round. Qed.
+Print Assumptions C10_faulty_full_round.
+
+(** every history of attaches, losses, script changes and sends: what is on connection k's wire is a prefix of the
+    concatenation of exactly the messages the loop gave to k, in order - and all of it when no send to k failed or stalled *)
+Theorem C10_faulty_history_prefix : forall ops rs st, NoDup (attached ops) -> rrun rstate0 ops = (rs, st) ->
+  forall k, exists tail, wire_of k st ++ tail = concat (map encode_frames (assigned k ops rs)).
+Proof. exact rr_history_prefix. Qed.
+Print Assumptions C10_faulty_history_prefix.
+
+Theorem C10_faulty_history_complete : forall ops rs st, NoDup (attached ops) -> rrun rstate0 ops = (rs, st) ->
+  forall k, (forall r, In r rs -> targets k r = true -> r = ROk k) ->
+  wire_of k st = concat (map encode_frames (assigned k ops rs)).
+Proof. exact rr_history_complete. Qed.
+Print Assumptions C10_faulty_history_complete.
